@@ -558,13 +558,53 @@ func runC06(c *Ctx) error {
 						map[string]any{"cfg": g.coq(selfID.IP), "history": htrace})
 				}
 			}
+			// the same 5-tuple in a frame of ANOTHER sender (sealed under that sender's own session): the
+			// inner source is not the authenticated source, whatever the connection table remembers
+			spoofIn := func() {
+				if len(senders) < 2 {
+					return
+				}
+				sj := (si + 1 + c.Rng.IntN(len(senders)-1)) % len(senders)
+				S2 := senders[sj]
+				pk := c06Pkt{ver: 6, src: S.id.IP, dst: selfID.IP, proto: proto, sport: sport, dport: dport, length: 60}
+				f, err := sb.NewFrameV1(S2.id.IP, selfID.IP, frame.NetworkTraffic, nil, pk.bytes(c), nil)
+				if err != nil {
+					return
+				}
+				if err := sealers[sj](f); err != nil {
+					f.ReturnToPool()
+					return
+				}
+				d, _ := f.FrameDataWithMargins(0, 0)
+				data := append([]byte(nil), d...)
+				f.ReturnToPool()
+				R.inject(data, nil)
+				delivered := false
+				for _, tf := range R.tunFrames() {
+					delivered = true
+					tf.ReturnToPool()
+				}
+				R.tunRaw()
+				w.queue = nil
+				c.Eval()
+				hsteps = append(hsteps, fmt.Sprintf("(HIn true %s %s %s,%s)", ipN(S2.id.IP), ipN(selfID.IP), pk.coq(), coqBool(delivered)))
+				htrace = append(htrace, fmt.Sprintf("in-from-other-sender-with-this-inner-source(delivered=%v)", delivered))
+				c.Count("history:foreign-frame-same-tuple")
+				if delivered {
+					c.Violate("a packet whose inner source is another router's address was handed to the local interface (it came in a frame authenticated for a different sender, on a 5-tuple the connection table knew)", "inbound-spoof-history",
+						map[string]any{"cfg": g.coq(selfID.IP), "history": htrace})
+				}
+			}
 			for k, n := 0, 3+c.Rng.IntN(5); k < n; k++ {
-				op := c.Rng.IntN(6)
+				op := c.Rng.IntN(7)
 				if g.isolate && gi%2 == 0 && k < 3 {
 					// isolated router: a local packet, the peer's packet on the same connection, a local packet again
 					op = []int{3, 0, 3}[k]
 				}
 				switch op {
+				case 6:
+					spoofIn()
+					sendIn()
 				case 5:
 					// an authentic ping of another kind from the sender (a pong request): no effect on connection states
 					spec := pingSpec{from: S.id, dst: selfID.IP, msgType: frame.RouterPing, pingType: "pong", seqTime: nextCraftTime(), pingID: uint64(900 + k)}
